@@ -408,6 +408,11 @@ func (l *log) delete(offsets map[int64]struct{}) ([]Message, int64, error) {
 			l.writerMu.Unlock()
 			return nil, 0, err
 		}
+	} else if rdr.head {
+		// the writing segment was rolled over since we looked it up and
+		// this reader is no longer part of the log, find the segment again
+		l.writerMu.Unlock()
+		return l.delete(offsets)
 	}
 	l.writerMu.Unlock()
 	verifhook.Pause("delete.target-chosen")
